@@ -39,7 +39,9 @@ CALLS = {
     'athlib.utils.schema_valid': [("utils.schema_valid", ["json/performance.json"]), ("utils.schema_valid", ["json/race.json"])],
     'athlib.utils.valid_against_schema': [("utils.valid_against_schema", ["sample-jsons/athlete.json", "json/athlete.json"]),
                                           ("utils.valid_against_schema", ["sample-jsons/performance_minimal.json", "json/performance.json"]),
-                                          ("utils.valid_against_schema", ["sample-jsons/event.json", "json/event.json"])],
+                                          ("utils.valid_against_schema", ["sample-jsons/event.json", "json/event.json"]),
+                                          ("utils.valid_against_schema", ["sample-jsons/athlete_invalid.json", "json/athlete.json", True]),
+                                          ("utils.valid_against_schema", ["sample-jsons/athlete_invalid.json", "json/athlete.json", False])],
 }
 
 
